@@ -15,6 +15,13 @@
  *                 (the anchor itself), so DTSTART's month need not be a listed one and INTERVAL counts from
  *                 DTSTART's month.  Only the members after such a DTSTART are judged (a leading DTSTART that is
  *                 no member is tolerated either way); options: intervals=, anchors=, terms=quick|full.
+ * mode=bigstep    sub-daily FREQs whose single step is longer than a day / a week / a month / a year (HOURLY;INTERVAL=25
+ *                 ... 8761, MINUTELY;INTERVAL=1441 ... 44641, SECONDLY;INTERVAL=86401, 604801), alone and with one
+ *                 BYDAY / BYMONTH / BYMONTHDAY part; the window is 400 steps (not after 2095), DTSTART derived.
+ *                 options: anchors=, terms=quick|full.
+ * mode=mdayedge   FREQ=YEARLY and FREQ=MONTHLY with BYMONTHDAY values at the edge of what a month has (-31, -30, -29,
+ *                 -28, 31, 30, 29 and mixtures: a negative day that is the 1st of some months only), without BYMONTH,
+ *                 with BYMONTH=2 and BYMONTH=1,3,4; options: intervals=, anchors=, terms=quick|full.
  */
 #include "vdrv.h"
 #include "ref/icalio.h"
@@ -28,6 +35,17 @@ static int nanchors = 8;
 static int terms_full = 0;
 static int ckpt_pass = 1;	/* --opt ckpt=0 switches the write-out / read-again pass off */
 static int unsync = 0;		/* mode=unsync: DTSTART is given, not derived */
+static int bigstep = 0;		/* mode=bigstep: the window is counted in steps of the rule */
+
+/* mode=bigstep: 400 steps of the rule, but not past 2095-01-01 */
+static int64_t
+bigstep_tend(const struct rg_rule_s *g, int64_t from)
+{
+	const int64_t unit = g->freq == RF_HOURLY ? 3600 : g->freq == RF_MINUTELY ? 60 : 1;
+	const int64_t lim = rf_days(2095, 1, 1) * 86400;
+	const int64_t e = from + 400 * unit * g->interval;
+	return e < lim ? e : lim;
+}
 
 /* observation window of a case */
 static int64_t
@@ -38,6 +56,13 @@ case_window(const struct rg_rule_s *g)
 		return (int64_t)40 * 366 * 86400;
 	}
 	return rg_window(g->freq);
+}
+
+/* end of the observation window of a case that starts at FROM */
+static int64_t
+case_tend(const struct rg_rule_s *g, int64_t from)
+{
+	return bigstep ? bigstep_tend(g, from) : from + case_window(g);
 }
 
 static int64_t
@@ -129,7 +154,7 @@ run_case(const struct rg_rule_s *g, const struct term_s *tm, rf_dt t0, const int
 	static int64_t ref[MAXOCC + 8], imp[MAXOCC + 8], imp2[MAXOCC + 8];
 	int nref, nimp, nimp2, ambig = 0, trunc = 0, beyond = 0, beyond2 = 0, adm = 0;
 	const int64_t ts0 = rf_secs(t0);
-	const int64_t tend = ts0 + case_window(g);
+	const int64_t tend = case_tend(g, ts0);
 	char sig[256], b1[32], b2[32];
 	int lead = 0;
 
@@ -332,7 +357,7 @@ per_rule(const struct rg_rule_s *g, void *clo)
 		}
 		vd_beat();
 		/* derive a synchronised DTSTART: the first member at or after the anchor */
-		n = unsync ? 1 : rf_eval(&g->ref, an, rf_secs(an) + rg_window(g->freq), first, 1, &ambig, &trunc);
+		n = unsync ? 1 : rf_eval(&g->ref, an, bigstep ? bigstep_tend(g, rf_secs(an)) : rf_secs(an) + rg_window(g->freq), first, 1, &ambig, &trunc);
 		if (!n) {
 			/* empty inside the window: C09's business */
 			continue;
@@ -354,7 +379,7 @@ per_rule(const struct rg_rule_s *g, void *clo)
 		}
 		static int64_t unb[MAXOCC + 8];
 		/* the unbounded listing, for UNTIL placement; re-anchored at the derived DTSTART */
-		n = rf_eval(&g->ref, t0, rf_secs(t0) + case_window(g), unb, 8, &ambig, &trunc);
+		n = rf_eval(&g->ref, t0, case_tend(g, rf_secs(t0)), unb, 8, &ambig, &trunc);
 		for (int k = 0; k < ntms; k++) {
 			if (unsync && tms[k].count) {
 				/* whether a DTSTART that is no member counts towards COUNT is open as well */
@@ -463,6 +488,67 @@ enumerate_unsync(const int *ivals, int nivals)
 	}
 }
 
+/* mode=bigstep */
+static void
+enumerate_bigstep(void)
+{
+	static const struct {
+		int freq;
+		int iv;
+		const char *ishape;
+	} step[] = {
+		{RF_HOURLY, 25, "N-gtday"}, {RF_HOURLY, 49, "N-gtday"}, {RF_HOURLY, 167, "N-gtday"}, {RF_HOURLY, 168, "N-week"},
+		{RF_HOURLY, 169, "N-gtweek"}, {RF_HOURLY, 200, "N-gtweek"}, {RF_HOURLY, 240, "N-gtweek"},
+		{RF_HOURLY, 745, "N-gtmonth"}, {RF_HOURLY, 8761, "N-gtyear"},
+		{RF_MINUTELY, 1441, "N-gtday"}, {RF_MINUTELY, 10081, "N-gtweek"}, {RF_MINUTELY, 10090, "N-gtweek"},
+		{RF_MINUTELY, 44641, "N-gtmonth"},
+		{RF_SECONDLY, 86401, "N-gtday"}, {RF_SECONDLY, 604801, "N-gtweek"},
+	};
+	static const struct pv_s second[] = {
+		{-1, NULL}, {P_DAY, "MO,WE,FR"}, {P_DAY, "SA,SU"}, {P_DAY, "TU"}, {P_MON, "1,3,5,7,8,10,12"}, {P_MON, "2"},
+		{P_MDAY, "1"}, {P_MDAY, "29,30,31"}, {P_MDAY, "-1"}, {P_MDAY, "1,-1"},
+	};
+
+	bigstep = 1;
+	for (size_t s = 0; s < sizeof(second) / sizeof(*second); s++) {
+		for (size_t k = 0; k < sizeof(step) / sizeof(*step); k++) {
+			struct rg_rule_s g;
+
+			mk_rule(&g, step[k].freq, step[k].iv, step[k].ishape, &second[s], second[s].val ? 1 : 0, NULL);
+			per_rule(&g, NULL);
+		}
+	}
+}
+
+/* mode=mdayedge */
+static void
+enumerate_mdayedge(const int *ivals, int nivals)
+{
+	static const char *const mday[] = {
+		"-31", "-30", "-29", "-28", "-31,-1", "-29,-1", "-30,1", "31", "30", "29", "29,-29", "-31,-30,-29,-28",
+	};
+	static const char *const mon[] = {NULL, "2", "1,3,4"};
+
+	for (int f = RF_YEARLY; f <= RF_MONTHLY; f++) {
+		for (size_t m = 0; m < sizeof(mon) / sizeof(*mon); m++) {
+			for (size_t d = 0; d < sizeof(mday) / sizeof(*mday); d++) {
+				for (int k = 0; k < nivals; k++) {
+					struct rg_rule_s g;
+					struct pv_s pv[2];
+					int n = 0;
+
+					if (mon[m]) {
+						pv[n].part = P_MON, pv[n].val = mon[m], n++;
+					}
+					pv[n].part = P_MDAY, pv[n].val = mday[d], n++;
+					mk_rule(&g, f, ivals[k], ivals[k] == 1 ? "1" : "N", pv, n, NULL);
+					per_rule(&g, NULL);
+				}
+			}
+		}
+	}
+}
+
 static void
 enumerate(void)
 {
@@ -486,6 +572,12 @@ enumerate(void)
 		return;
 	} else if (!strcmp(vd_opt("mode", "grammar"), "unsync")) {
 		enumerate_unsync(ivals, c.nintervals);
+		return;
+	} else if (!strcmp(vd_opt("mode", "grammar"), "bigstep")) {
+		enumerate_bigstep();
+		return;
+	} else if (!strcmp(vd_opt("mode", "grammar"), "mdayedge")) {
+		enumerate_mdayedge(ivals, c.nintervals);
 		return;
 	}
 	rg_enumerate(&c, per_rule, NULL);
